@@ -53,7 +53,7 @@ func c04Extra(t harness.Tree, probe map[string]fileProbe) []harness.Req {
 	return out
 }
 
-var c04TagBytes = []string{"a", `"`, `\`, " ", ",", "é", "\x01", "\x7f", "\xff"}
+var c04TagBytes = []string{"a", `"`, `\`, " ", ",", "é", "\x01", "\x7f", "\xff", "*"}
 
 func c04Tags(maxLen int) []string {
 	out := []string{""}
